@@ -3,7 +3,7 @@ import ast
 import re
 
 from ..core import AnalysisError, src
-from ..pysym import SymExec, show, subterms
+from ..pysym import SymExec, show, subterms, str_parts, path_values, terms_of, all_calls
 from ..rules_pyx import N, C, A
 from .. import codec
 from .. import logic
@@ -74,6 +74,54 @@ def regex_class(pattern):
     raise AnalysisError('tokeniser regex %r is neither a delimiter class nor delimiter|run alternation' % pattern)
 
 
+def _literal_chars(parts):
+    out = set()
+    for p_ in parts:
+        if isinstance(p_, str):
+            out |= set(p_)
+    return out
+
+
+class ParseWalk(object):
+    """Category.parse run by the path walker with the two work lists modelled: a .pop() on the list created empty in
+    parse (the operand stack) yields ('sym','popped',k); a .pop() on the token list yields ('sym','token',k)."""
+
+    def __init__(self, mod):
+        self.fn = fn = mod.get('Category.parse')
+        self.text = [a.arg for a in fn.args.args][-1]
+
+        def on_call(st, t, node):
+            f = t[1]
+            if f[0] == 'attr' and f[2] == 'pop' and not t[2] and not t[3]:
+                kind = 'popped' if (f[1][0] == 'alloc' and f[1][1] == 'list') else 'token'
+                k = st.data.get(kind, 0)
+                st.data[kind] = k + 1
+                return ('sym', kind, k)
+            return None
+        self.paths = SymExec(fn, unroll=1, on_call=on_call).run()
+        allocs = {t for st, o in self.paths for e in st.events if e[0] == 'call' and e[1][1][0] == 'attr' and e[1][1][2] == 'append'
+                  for t in [e[1][1][1]] if t[0] == 'alloc'}
+        if len(allocs) != 1:
+            raise AnalysisError('%s: Category.parse: expected one operand stack created as an empty list, found %d' % (REL, len(allocs)))
+        self.stack = next(iter(allocs))
+        self.loops = [n for n in ast.walk(fn) if isinstance(n, (ast.While, ast.For))]
+
+    def token_chars(self, st, pol=True):
+        """characters the first token of the iteration is known to be among on this path, or None"""
+        tok = ('sym', 'token', 0)
+        for c, p_, _ in st.conds:
+            f = logic.formula(c)
+            if not p_:
+                f = logic.neg(f)
+            if f[0] == 'atom' and f[1][0] == 'in' and f[1][1] == tok and f[1][2][0] == 'const' and isinstance(f[1][2][1], str):
+                return set(f[1][2][1])
+            if f[0] == 'atom' and f[1][0] == 'eq' and tok in f[1][1:]:
+                other = [x for x in f[1][1:] if x != tok]
+                if other and other[0][0] == 'const' and isinstance(other[0][1], str):
+                    return {other[0][1]}
+        return None
+
+
 def r_delimiters(mod, rep, R='R5.1'):
     cs = mod.assign('cat_split')
     if not (isinstance(cs, ast.Call) and src(cs.func) == 're.compile' and isinstance(cs.args[0], ast.Constant)):
@@ -88,53 +136,60 @@ def r_delimiters(mod, rep, R='R5.1'):
     else:
         rep.check(not swallowed, R, w, 'cat_split:run-excludes-delimiters', 'the atom-run alternative excludes every delimiter, so each delimiter is a token of its own',
                   'the atom-run alternative of the tokeniser does not exclude the delimiter(s) %s: they are glued onto the preceding atom' % sorted(swallowed))
-    # what the printers emit
+    # what the printers emit: literal characters of every text the two __str__ can return (helpers inlined)
     emitted = set()
-    a_str = mod.get('Atom.__str__')
-    for st, ret in codec.returns_of(a_str):
-        if ret[0] == 'fstr':
-            for p in ret[1]:
-                if isinstance(p, str):
-                    emitted |= set(p)
-    f_str = mod.get('Functor.__str__')
-    inner = mod.get('Functor.__str__._str')
-    for st, ret in codec.returns_of(inner):
-        if ret[0] == 'fstr':
-            for p in ret[1]:
-                if isinstance(p, str):
-                    emitted |= set(p)
+    for q in ('Atom.__str__', 'Functor.__str__'):
+        for conds, v in path_values(SymExec(mod.get(q), unroll=1).run()):
+            parts = str_parts(v)
+            if parts is not None:
+                emitted |= _literal_chars(parts)
     slashes = set()
-    for q, want in (('Category.__truediv__', None), ('Category.__or__', None)):
-        fn = mod.get(q)
-        for st, ret in codec.returns_of(fn):
-            if ret[0] == 'call' and ret[1] == N('Functor') and ret[2][1][0] == 'const':
-                slashes.add(ret[2][1][1])
-    parse = mod.get('Category.parse')
-    consts = [n.value for n in ast.walk(parse) if isinstance(n, ast.Constant) and isinstance(n.value, str)]
-    slash_tests = [c for c in consts if c and set(c) <= set('/\\|') and len(c) > 1]
-    for c in slash_tests:
-        slashes |= set(c)
+    for q in ('Category.__truediv__', 'Category.__or__'):
+        for conds, ret in path_values(SymExec(mod.get(q), unroll=1).run()):
+            if ret[0] == 'call' and ret[1] == N('Functor'):
+                args = list(ret[2]) + [v for k, v in ret[3] if k == 'slash']
+                for a_ in args:
+                    if a_[0] == 'const' and isinstance(a_[1], str) and set(a_[1]) <= set('/\\|') and a_[1]:
+                        slashes.add(a_[1])
+    pw = ParseWalk(mod)
+    parse = pw.fn
+    tested = set()
+    slash_tests = set()
+    for st, o in pw.paths:
+        for c, p_, _ in st.conds:
+            f = logic.formula(c)
+            if f[0] == 'not':
+                f = f[1]
+            if f[0] != 'atom':
+                continue
+            if f[1][0] == 'in' and f[1][2][0] == 'const' and isinstance(f[1][2][1], str):
+                tested |= set(f[1][2][1])
+                if len(f[1][2][1]) > 1 and set(f[1][2][1]) <= set('/\\|'):
+                    slash_tests |= set(f[1][2][1])
+            if f[1][0] == 'in' and f[1][2][0] in ('tuple', 'list', 'set') and all(x[0] == 'const' and isinstance(x[1], str) and len(x[1]) == 1 for x in f[1][2][1]):
+                tested |= {x[1] for x in f[1][2][1]}
+            if f[1][0] == 'eq':
+                for x in f[1][1:]:
+                    if x[0] == 'const' and isinstance(x[1], str) and len(x[1]) == 1:
+                        tested.add(x[1])
+    slashes |= slash_tests
     emitted |= slashes
     rep.check(emitted <= cls and {'[', ']', '(', ')'} <= emitted and len(slashes) >= 2, R, w, 'delimiters:emitted-in-class',
               'every structural character the printers emit %s is a tokeniser delimiter %s' % (sorted(emitted), sorted(cls)),
               'the printers emit %s, the tokeniser only splits on %s' % (sorted(emitted - cls), sorted(cls)))
-    # the reader's dispatch covers the class
-    tested = set()
-    for n in ast.walk(parse):
-        if isinstance(n, ast.Compare) and len(n.ops) == 1:
-            c = n.comparators[0]
-            if isinstance(n.ops[0], ast.In) and isinstance(c, ast.Constant) and isinstance(c.value, str) and src(n.left) == 'item':
-                tested |= set(c.value)
-            if isinstance(n.ops[0], ast.Eq) and isinstance(c, ast.Constant) and isinstance(c.value, str) and len(c.value) == 1:
-                tested.add(c.value)
     rep.check(cls <= tested, R, '%s:%s Category.parse' % (REL, parse.lineno), 'delimiters:dispatch-covers-class',
               'the reader has a case for every delimiter the tokeniser produces', 'delimiters without a case in Category.parse: %s' % sorted(cls - tested))
-    sub = [n for n in ast.walk(parse) if isinstance(n, ast.Call) and src(n.func) == 'cat_split.sub']
-    fa = [n for n in ast.walk(parse) if isinstance(n, ast.Call) and src(n.func) == 'cat_split.findall']
-    if style == 'split':
-        ok = bool(sub) and isinstance(sub[0].args[0], ast.Constant) and sub[0].args[0].value == ' \\1 ' and "split(' ')" in src(parse)
-    else:
-        ok = bool(fa) and len(fa[0].args) == 1 and src(fa[0].args[0]) == parse.args.args[1].arg
+    # the text is tokenised with the delimiter regex
+    text = N(pw.text)
+    ok = False
+    for st, o in pw.paths:
+        for t in terms_of(st):
+            for s_ in subterms(t):
+                if style == 'split' and s_[0] == 'call' and s_[1][0] == 'attr' and s_[1][2] == 'split' and s_[2] == (C(' '),) \
+                        and s_[1][1] == ('call', A(N('cat_split'), 'sub'), (C(' \\1 '), text), ()):
+                    ok = True
+                if style != 'split' and s_ == ('call', A(N('cat_split'), 'findall'), (text,), ()):
+                    ok = True
     rep.check(ok, R, '%s:%s Category.parse' % (REL, parse.lineno), 'delimiters:tokenise',
               'the text is tokenised with the delimiter regex (%s style): blanks never matter' % style,
               'Category.parse does not tokenise its text with cat_split in the %s style' % style)
@@ -150,7 +205,8 @@ def r_feature(mod, rep, R='R5.2'):
         r = rets[0][1]
         if r[0] == 'call' and r[1][0] == 'attr' and r[1][2] == 'join' and r[1][1] == C(','):
             g = r[2][0]
-            ok = g[0] in ('genexp', 'listcomp') and g[1][0] == 'fstr' and [p for p in g[1][1] if isinstance(p, str)] == ['='] and len(g[1][1]) == 3 \
+            parts = str_parts(g[1]) if g[0] in ('genexp', 'listcomp') else None
+            ok = parts is not None and [p for p in parts if isinstance(p, str)] == ['='] and len(parts) == 3 \
                 and g[2][0][0] == ('call', A(N('self'), 'items'), (), ())
     rep.check(ok, R, w, 'feature:print', 'a three-part feature prints as k=v,k=v,k=v', 'TernaryFeature.__str__ returns %s' % (show(rets[0][1])[:80] if rets else None))
     items = mod.get('TernaryFeature.items')
@@ -172,95 +228,143 @@ def r_feature(mod, rep, R='R5.2'):
             unary = ret == ('call', N('UnaryFeature'), (N(p),), ())
     rep.check(tern, R, wf, 'feature:parse-ternary', 'text with both separators is split on , and = into a three-part feature', 'Feature.parse does not split on , and = for the three-part form')
     rep.check(unary, R, wf, 'feature:parse-unary', 'any other text becomes a plain feature with that text', 'Feature.parse does not fall back to UnaryFeature(text)')
+    # atom: base, or base[feature]
     a_str = mod.get('Atom.__str__')
-    ok = False
-    for st, ret in codec.returns_of(a_str):
-        if ret[0] == 'fstr':
-            ok = [p_ if isinstance(p_, str) else '{}' for p_ in ret[1]] == ['{}', '[', '{}', ']']
-    rep.check(ok, R, '%s:%s Atom.__str__' % (REL, a_str.lineno), 'atom:print', 'an atom with a feature prints as base[feature]', 'Atom.__str__ template changed')
-    inner = mod.get('Functor.__str__._str')
-    paren = plain = False
-    q = inner.args.args[0].arg
-    for st, ret in codec.returns_of(inner):
-        conds = [(c, pol) for c, pol, _ in st.conds]
-        isf = [(c, pol) for c, pol in conds if c == ('call', N('isinstance'), (N(q), N('Functor')), ()) or c == A(N(q), 'is_functor')]
-        bracketed = ret[0] == 'fstr' and [p_ if isinstance(p_, str) else '{}' for p_ in ret[1]] == ['(', '{}', ')']
-        if isf and isf[0][1]:
-            paren = bracketed
-        elif isf:
-            plain = ret == ('call', N('str'), (N(q),), ()) or bracketed      # redundant brackets never change the value
-        else:
-            paren = plain = bracketed       # unconditional bracketing is also unambiguous
+    vals = path_values(SymExec(a_str, unroll=1).run())
+    feat = (A(N('self'), 'feature'), ('call', N('str'), (A(N('self'), 'feature'),), ()))
+    ok = any(str_parts(v) is not None and len(str_parts(v)) == 4 and str_parts(v)[0] == A(N('self'), 'base') and str_parts(v)[1] == '['
+             and str_parts(v)[2] in feat and str_parts(v)[3] == ']' for _, v in vals)
+    other = [v for _, v in vals if not (str_parts(v) is not None and len(str_parts(v)) == 4)]
+    ok = ok and all(v == A(N('self'), 'base') or str_parts(v) == [A(N('self'), 'base')] for v in other)
+    rep.check(ok, R, '%s:%s Atom.__str__' % (REL, a_str.lineno), 'atom:print', 'an atom with a feature prints as base[feature], without one as base',
+              'Atom.__str__ returns %s' % [show(v)[:60] for _, v in vals])
+    # functor: left slash right, every operand that is a functor in brackets
     fs = mod.get('Functor.__str__')
-    top = [r for st, r in codec.returns_of(fs)]
-    oktop = len(top) == 1 and show(top[0]).replace(' ', '').count('self.slash') == 1 and 'self.left' in show(top[0]) and 'self.right' in show(top[0]) and \
-        show(top[0]).index('self.left') < show(top[0]).index('self.slash') < show(top[0]).index('self.right')
-    rep.check(paren and plain and oktop, R, '%s:%s Functor.__str__' % (REL, fs.lineno), 'functor:print',
-              'a functor prints left slash right and brackets (at least) every operand that is itself a functor', 'Functor.__str__ leaves a functor operand unbracketed: the text becomes ambiguous')
+    vals = path_values(SymExec(fs, unroll=1).run())
+    S_ = N('self')
+    good = bool(vals)
+    why = []
+
+    def operand(parts, i, x, conds):
+        """consume one operand at parts[i:], -> new index or None"""
+        if parts[i:i + 3] == ['(', x, ')']:
+            return i + 3
+        if i < len(parts) and parts[i] == x:
+            # unbracketed: only when x is known not to be a functor here
+            nf = logic.implied(conds, logic.neg(logic.formula(('call', N('isinstance'), (x, N('Functor')), ())))) or \
+                logic.implied(conds, logic.neg(logic.formula(A(x, 'is_functor')))) or logic.implied(conds, logic.formula(A(x, 'is_atomic')))
+            return i + 1 if nf else None
+        return None
+    for conds, v in vals:
+        parts = str_parts(v)
+        if parts is None:
+            good = False
+            why.append('returns %s' % show(v)[:80])
+            continue
+        # literal pieces may have been merged with neighbours: split brackets off again
+        flat_parts = []
+        for p_ in parts:
+            if isinstance(p_, str):
+                flat_parts.extend(list(p_))
+            else:
+                flat_parts.append(p_)
+        i = operand(flat_parts, 0, A(S_, 'left'), conds)
+        ok1 = i is not None and i < len(flat_parts) and flat_parts[i] == A(S_, 'slash')
+        j = operand(flat_parts, i + 1, A(S_, 'right'), conds) if ok1 else None
+        if not (ok1 and j == len(flat_parts)):
+            good = False
+            why.append('%s when %s' % (show(v)[:80], [(show(c)[:40], p_) for c, p_ in conds]))
+    rep.check(good, R, '%s:%s Functor.__str__' % (REL, fs.lineno), 'functor:print',
+              'a functor prints left slash right and brackets (at least) every operand that is itself a functor',
+              'Functor.__str__ leaves a functor operand unbracketed or changes the layout: the text becomes ambiguous (%s)' % '; '.join(why[:2]))
 
 
 def r_associativity(mod, rep, R='R5.3'):
-    parse = mod.get('Category.parse')
+    pw = ParseWalk(mod)
+    parse = pw.fn
     w = '%s:%s Category.parse' % (REL, parse.lineno)
-    fcalls = [n for n in ast.walk(parse) if isinstance(n, ast.Call) and src(n.func) == 'Functor']
-    rep.check(len(fcalls) == 2 and all(len(c.args) == 3 for c in fcalls), R, w, 'parse:functor-sites', 'a functor is built in exactly two places, each from (left, slash, right)',
-              'Functor(...) is built at %d places' % len(fcalls))
-    loops = [n for n in ast.walk(parse) if isinstance(n, (ast.While, ast.For))]
-    rep.check(len(loops) == 1 and src(loops[0].test).replace(' ', '') in ('len(buffer)', 'buffer', 'len(buffer)>0'), R, w, 'parse:single-loop',
-              'the only loop is the token loop: no folding of several operators at one bracket level', 'Category.parse has %d loops' % len(loops))
-    # closing-bracket branch
-    closing = None
-    for n in ast.walk(parse):
-        if isinstance(n, ast.If) and isinstance(n.test, ast.Compare) and src(n.test.left) == 'item' and isinstance(n.test.comparators[0], ast.Constant) \
-                and set(n.test.comparators[0].value) == set(')>'):
-            closing = n
-    if closing is None:
-        rep.violation(R, w, 'parse:closing', 'no case for closing brackets')
-        return
-    body = ast.Module(body=closing.body, type_ignores=[])
-    fn = ast.FunctionDef(name='closing', args=ast.arguments(posonlyargs=[], args=[], kwonlyargs=[], kw_defaults=[], defaults=[]), body=closing.body,
-                         decorator_list=[], lineno=closing.lineno, col_offset=0)
-    pops_by_path = []
-
-    def on_call(st, t, node):
-        if t[1] == A(N('stack'), 'pop') and not t[2]:
-            k = st.data.get('pops', 0)
-            st.data['pops'] = k + 1
-            return ('sym', 'popped', k)
-        return None
+    rep.check(len(pw.loops) == 1, R, w, 'parse:single-loop',
+              'the only loop is the token loop: no folding of several operators at one bracket level', 'Category.parse has %d loops' % len(pw.loops))
+    stack = pw.stack
+    P = lambda k: ('sym', 'popped', k)
+    seen = set()
     n_simple = n_functor = 0
-    for st, o in SymExec(fn, on_call=on_call).run():
-        pops = st.data.get('pops', 0)
-        asserts = [e[1] for e in st.events if e[0] == 'assert']
-        pushed = [e[1][2][0] for e in st.events if e[0] == 'call' and e[1][1] == A(N('stack'), 'append')]
-        built = [p for p in pushed if p[0] == 'call' and p[1] == N('Functor')]
-        bracket_checked = any(a[0] == 'cmp' and a[1] == 'in' and a[2][0] == 'sym' and a[2][1] == 'popped' and a[3][0] == 'const' and set(a[3][1]) == set('(<') for a in asserts)
+    functor_forms = set()
+    closing_seen = False
+    for st, o in pw.paths:
+        entered = any(e[0] == 'loop-enter' for e in st.events)
+        # every Functor(...) built anywhere on the path
+        for c_ in all_calls(st, N('Functor')):
+            functor_forms.add(c_[2])
+        if not entered:
+            continue
+        chars = pw.token_chars(st)
+        if not chars or not chars <= set(')>'):
+            continue
+        closing_seen = True
+        i_exit = [i for i, e in enumerate(st.events) if e[0] == 'loop-exit']
+        seg = st.events[:i_exit[0]] if i_exit else st.events
+        pops = max([x[2] + 1 for e in seg for t in e[1:-1] if isinstance(t, tuple) for x in subterms(t) if x[0] == 'sym' and x[1] == 'popped'] or [0])
+        asserts = [(e[1], True) for e in seg if e[0] == 'assert']
+        pushed = [e[1][2][0] for e in seg if e[0] == 'call' and e[1][1] == A(stack, 'append')]
+        sig = (pops, tuple(pushed), tuple(asserts))
+        if sig in seen:
+            continue
+        seen.add(sig)
+        built = [p_ for p_ in pushed if p_[0] == 'call' and p_[1] == N('Functor')]
+
+        def bracket_checked(k):
+            for a_, _ in asserts:
+                f = logic.formula(a_)
+                if f[0] == 'atom' and f[1][0] == 'in' and f[1][1] == P(k) and f[1][2][0] == 'const' and isinstance(f[1][2][1], str) and set(f[1][2][1]) <= set('(<'):
+                    return True
+                if f[0] == 'atom' and f[1][0] == 'eq' and P(k) in f[1][1:] and any(x[0] == 'const' and x[1] in ('(', '<') for x in f[1][1:]):
+                    return True
+            return False
+        if o == 'raise' and not pushed:
+            continue        # a failed assertion / explicit error
         if built:
             n_functor += 1
             f = built[0]
-            ok = pops == 4 and bracket_checked and f[2] == (('sym', 'popped', 2), ('sym', 'popped', 1), ('sym', 'popped', 0))
+            ok = pops == 4 and bracket_checked(3) and f[2] == (P(2), P(1), P(0)) and not f[3] and len(pushed) == 1
             rep.check(ok, R, w, 'parse:closing:functor', 'closing a bracket over "x slash y" pops exactly y, slash, x, then requires the opening bracket',
-                      'functor-closing path pops %d entries, bracket checked: %s, builds %s' % (pops, bracket_checked, show(f)[:60]))
+                      'functor-closing path pops %d entries, opening bracket required: %s, builds %s' % (pops, bracket_checked(3), show(f)[:60]))
         elif pushed:
             n_simple += 1
-            ok = pops == 2 and bracket_checked and pushed[0] == ('sym', 'popped', 0)
+            ok = pops == 2 and bracket_checked(1) and pushed == [P(0)]
             rep.check(ok, R, w, 'parse:closing:redundant', 'closing a redundant bracket pops the operand and requires the opening bracket, value unchanged',
-                      'redundant-bracket path pops %d entries, bracket checked: %s' % (pops, bracket_checked))
+                      'redundant-bracket path pops %d entries, opening bracket required: %s, pushes %s' % (pops, bracket_checked(1), [show(x)[:40] for x in pushed]))
+        else:
+            rep.violation(R, w, 'parse:closing:drops', 'a closing bracket can pop %d entries and push nothing back' % pops)
+    if not closing_seen:
+        rep.violation(R, w, 'parse:closing', 'no case for closing brackets')
+        return
     rep.check(n_functor >= 1 and n_simple >= 1, R, w, 'parse:closing:cases', 'both closing cases exist (redundant bracket / operand-slash-operand)',
               'closing cases: functor %d, redundant %d' % (n_functor, n_simple))
-    # end of input
-    tail = parse.body[parse.body.index(loops[0]) + 1:] if loops and loops[0] in parse.body else []
-    t = ' '.join(src(s) for s in tail).replace('\n', ' ')
-    single = any(isinstance(s, ast.If) and src(s.test).replace(' ', '') == 'len(stack)==1' and src(s.body[0]).replace(' ', '') == 'returnstack[0]' for s in tail)
-    tr = [s for s in tail if isinstance(s, ast.Try)]
-    three = False
-    if tr:
-        unpack = [s for s in tr[0].body if isinstance(s, ast.Assign) and isinstance(s.targets[0], ast.Tuple) and len(s.targets[0].elts) == 3 and src(s.value) == 'stack'
-                  and not any(isinstance(e, ast.Starred) for e in s.targets[0].elts)]
-        handlers = [h for h in tr[0].handlers if h.type is not None and 'ValueError' in src(h.type) and any(isinstance(x, ast.Raise) for x in h.body)]
-        three = bool(unpack) and bool(handlers)
-    rep.check(single and three, R, w, 'parse:end', 'at the end one entry is returned, or exactly three are combined; any other count is an error',
-              'end of input does not enforce one entry or exactly three (single: %s, exactly-three-or-error: %s)' % (single, three))
+    # end of input: one entry is returned as is, or exactly three are combined
+    U = lambda k: ('unpack', stack, k)
+    single = three = False
+    other = []
+    for st, o in pw.paths:
+        if o != 'return' or st.ret is None or any(e[0] == 'loop-enter' for e in st.events):
+            continue
+        conds = [(c, p_) for c, p_, _ in st.conds]
+        r = st.ret
+        if r == ('sub', stack, C(0)) and logic.implied(conds, logic.formula(('cmp', '==', ('call', N('len'), (stack,), ()), C(1)))):
+            single = True
+        elif r[0] == 'call' and r[1] == N('Functor') and r[2] == (U(0), U(1), U(2)) and not r[3]:
+            three = True
+        else:
+            other.append(show(r)[:60])
+    starred = [n for n in ast.walk(parse) if isinstance(n, ast.Starred) and isinstance(getattr(n, 'ctx', None), ast.Store)]
+    rep.check(single and three and not other and not starred, R, w, 'parse:end',
+              'at the end one entry is returned, or exactly three are combined; any other count is an error',
+              'end of input does not enforce one entry or exactly three (single: %s, exactly-three: %s, other results: %s, starred unpacking: %d)'
+              % (single, three, other, len(starred)))
+    legal = {(P(2), P(1), P(0)), (U(0), U(1), U(2))}
+    rep.check(functor_forms <= legal and len(functor_forms) == 2, R, w, 'parse:functor-sites',
+              'a functor is built only from exactly three stack entries (at a closing bracket, or at the end)',
+              'Functor(...) is also built from %s' % [[show(a)[:30] for a in f] for f in sorted(functor_forms - legal)])
 
 
 def check(repo, rep, tier):
